@@ -177,6 +177,13 @@ func streamMaxCreation(r *rand.Rand, i int, tier string) *Case {
 	default:
 		now = start.Add(time.Duration(r.Int63n(int64(7 * iv))))
 	}
+	if r.Intn(12) == 0 {
+		// a replica set that has been active for months with a short interval: the ramp is far beyond any
+		// 32-bit count, the result is still min(maxParallelPodCreation, ramp)
+		now = start.Add(time.Duration(200+r.Intn(400)) * 24 * time.Hour)
+		ru.SlowStartIntervalDuration = &metav1.Duration{Duration: time.Duration(1+r.Intn(3)) * time.Second}
+		ru.SlowStartAdditiveIncrease = ios(intstr.FromInt(50 + r.Intn(200)))
+	}
 	var v int
 	var err error
 	panicked, _ := Recovered(func() { v, err = strategy.VerifCalculateMaxCreation(ru, nbNodes, start, now) })
